@@ -32,6 +32,8 @@ type Stats struct {
 	Inter     map[uint64]struct{} // distinct interleaving prefixes (multi-task runs)
 	Samples   []json.RawMessage
 	lastCut   [2]byte
+	WantObs   bool   // event-log mode: keep a fingerprint of everything the calls returned and reported
+	Obs       uint64 // that fingerprint
 }
 
 func NewStats() *Stats {
